@@ -974,8 +974,19 @@ def check_exec(ctx):
                     and isinstance(call_.args[2], ast.Name):
                 # the program under any local name, bound once to compile_expr(<the expression>).as_list()
                 prm = cc.node.args.args[0].arg if cc.node.args.args else None
-                binds = [n_.value for n_ in ast.walk(cc.node) if isinstance(n_, ast.Assign) and len(n_.targets) == 1 and isinstance(n_.targets[0], ast.Name) and n_.targets[0].id == call_.args[2].id]
-                ok = len(binds) == 1 and prm is not None and canon(binds[0]) == 'compile_expr(%s).as_list()' % prm
+                single = {}
+                for n_ in ast.walk(cc.node):
+                    if isinstance(n_, ast.Assign) and len(n_.targets) == 1 and isinstance(n_.targets[0], ast.Name):
+                        single.setdefault(n_.targets[0].id, []).append(n_.value)
+                single = {k_: v_[0] for k_, v_ in single.items() if len(v_) == 1 and k_ != prm}
+                from ..expr import subst
+                prog = call_.args[2]
+                for _ in range(4):
+                    names_ = {x.id for x in ast.walk(prog) if isinstance(x, ast.Name)} & set(single)
+                    if not names_:
+                        break
+                    prog = subst(prog, {k_: single[k_] for k_ in names_})
+                ok = prm is not None and canon(prog) == 'compile_expr(%s).as_list()' % prm
         if ok:
             ctx.holds(rule, cc, 'lambda pkt, *v, **k: exec_compiled_expr(pkt, args, compile_expr(expr).as_list(), *v, **k)', 'the callable runs the compiled program on the packet', cc.node.lineno, clause='g')
         elif len(rets) == 1 and isinstance(rets[0].value, ast.Lambda) and isinstance(rets[0].value.body, ast.Call) and call_name(rets[0].value.body) == 'exec_compiled_expr' \
